@@ -27,7 +27,13 @@ type DiskEntry struct {
 	Target string `json:"target,omitempty"` // symlink target (relative)
 	Mode   uint32 `json:"mode,omitempty"`
 	AgeSec int    `json:"age_sec,omitempty"` // modification time = world start minus this many seconds
+	MtimeUnix int64 `json:"mtime_unix,omitempty"` // absolute modification time (seconds), wins over AgeSec
 	Stale  bool   `json:"stale,omitempty"`   // left over from an earlier run (may be dropped when minimising)
+}
+
+type PreStep struct {
+	Argv  []string    `json:"argv"`
+	After []DiskEntry `json:"after,omitempty"` // files (re)written after the step (e.g. the DSL edited in place)
 }
 
 type CLIWorld struct {
@@ -36,6 +42,11 @@ type CLIWorld struct {
 	Disk0 []DiskEntry `json:"disk0"` // initial durable state
 	Sched SchedConfig `json:"sched"`
 	Real  bool        `json:"real,omitempty"` // run the unrewritten binary (no simulator record)
+	// Pre: earlier invocations in the SAME sandbox (each its own process): the
+	// directory tree is the durable state that survives from one run to the next.
+	Pre []PreStep `json:"pre,omitempty"`
+	// NoFile limits the number of open file descriptors of the process (0 = unlimited).
+	NoFile int `json:"nofile,omitempty"`
 	StdoutKind string `json:"stdout_kind,omitempty"` // "" = pipe, "file" = a regular file outside the sandbox, "devfull" = /dev/full (every write fails with ENOSPC), "pty" = a pseudo terminal in raw mode
 	Env   []string    `json:"env,omitempty"`
 }
@@ -123,41 +134,56 @@ func (sc *Scratch) RunCLI(w *CLIWorld) (*CLIOutcome, error) {
 		data []byte
 	}
 	var fifos []fifoFeed
-	for _, d := range w.Disk0 {
-		p := filepath.Join(root, d.Path)
-		switch d.Kind {
-		case "dir":
-			if err := os.MkdirAll(p, 0o755); err != nil {
-				return nil, infraf("disk0: %v", err)
-			}
-		case "symlink":
-			_ = os.MkdirAll(filepath.Dir(p), 0o755)
-			if err := os.Symlink(d.Target, p); err != nil {
-				return nil, infraf("disk0: %v", err)
-			}
-		case "fifo":
-			// a named pipe fed by the harness (process substitution, /dev/stdin style input)
-			_ = os.MkdirAll(filepath.Dir(p), 0o755)
-			if err := syscall.Mkfifo(p, 0o644); err != nil {
-				return nil, infraf("disk0 fifo: %v", err)
-			}
-			fifos = append(fifos, fifoFeed{p, d.Data})
-		default:
-			_ = os.MkdirAll(filepath.Dir(p), 0o755)
-			mode := os.FileMode(0o644)
-			if d.Mode != 0 {
-				mode = os.FileMode(d.Mode)
-			}
-			if err := os.WriteFile(p, d.Data, mode); err != nil {
-				return nil, infraf("disk0: %v", err)
+	materialise := func(entries []DiskEntry) error {
+		for _, d := range entries {
+			p := filepath.Join(root, d.Path)
+			switch d.Kind {
+			case "dir":
+				if err := os.MkdirAll(p, 0o755); err != nil {
+					return infraf("disk0: %v", err)
+				}
+			case "symlink":
+				_ = os.MkdirAll(filepath.Dir(p), 0o755)
+				if err := os.Symlink(d.Target, p); err != nil {
+					return infraf("disk0: %v", err)
+				}
+			case "fifo":
+				// a named pipe fed by the harness (process substitution, /dev/stdin style input)
+				_ = os.MkdirAll(filepath.Dir(p), 0o755)
+				if err := syscall.Mkfifo(p, 0o644); err != nil {
+					return infraf("disk0 fifo: %v", err)
+				}
+				fifos = append(fifos, fifoFeed{p, d.Data})
+			default:
+				_ = os.MkdirAll(filepath.Dir(p), 0o755)
+				mode := os.FileMode(0o644)
+				if d.Mode != 0 {
+					mode = os.FileMode(d.Mode)
+				}
+				if err := os.WriteFile(p, d.Data, mode); err != nil {
+					return infraf("disk0: %v", err)
+				}
+				if d.Mode != 0 {
+					_ = os.Chmod(p, mode)
+				}
 			}
 		}
+		for _, d := range entries {
+			if d.Kind == "symlink" {
+				continue
+			}
+			if d.MtimeUnix != 0 {
+				t := time.Unix(d.MtimeUnix, 0)
+				_ = os.Chtimes(filepath.Join(root, d.Path), t, t)
+			} else if d.AgeSec != 0 {
+				t := time.Now().Add(-time.Duration(d.AgeSec) * time.Second)
+				_ = os.Chtimes(filepath.Join(root, d.Path), t, t)
+			}
+		}
+		return nil
 	}
-	for _, d := range w.Disk0 {
-		if d.AgeSec != 0 && d.Kind != "symlink" {
-			t := time.Now().Add(-time.Duration(d.AgeSec) * time.Second)
-			_ = os.Chtimes(filepath.Join(root, d.Path), t, t)
-		}
+	if err := materialise(w.Disk0); err != nil {
+		return nil, err
 	}
 	cwd := filepath.Join(root, w.Cwd)
 	if err := os.MkdirAll(cwd, 0o755); err != nil {
@@ -170,7 +196,18 @@ func (sc *Scratch) RunCLI(w *CLIWorld) (*CLIOutcome, error) {
 			if err != nil {
 				return
 			}
-			_, _ = f.Write(ff.data)
+			// the producer writes in pieces with pauses, as a slow upstream
+			// command would: a reader must read until end of file
+			third := len(ff.data) / 3
+			if third > 0 {
+				_, _ = f.Write(ff.data[:third])
+				time.Sleep(15 * time.Millisecond)
+				_, _ = f.Write(ff.data[third : 2*third])
+				time.Sleep(15 * time.Millisecond)
+				_, _ = f.Write(ff.data[2*third:])
+			} else {
+				_, _ = f.Write(ff.data)
+			}
 			f.Close()
 		}(ff)
 	}
@@ -191,7 +228,10 @@ func (sc *Scratch) RunCLI(w *CLIWorld) (*CLIOutcome, error) {
 		argv[i] = subst(a, root)
 	}
 	bin := sc.SimCLI
-	env := append(os.Environ(), w.Env...)
+	env := os.Environ()
+	for _, e := range w.Env {
+		env = append(env, subst(e, root))
+	}
 	recPath := filepath.Join(base, "record.json")
 	if w.Real {
 		bin = sc.RealCLI
@@ -205,7 +245,53 @@ func (sc *Scratch) RunCLI(w *CLIWorld) (*CLIOutcome, error) {
 		}
 		env = append(env, "VERIF_WORLD="+cfgPath)
 	}
-	cmd := exec.Command(bin, argv...)
+	mkCmd := func(args []string) *exec.Cmd {
+		if w.NoFile > 0 {
+			// a tight descriptor limit for the process (and only for it)
+			sh := fmt.Sprintf("ulimit -n %d; exec \"$0\" \"$@\"", w.NoFile)
+			return exec.Command("/bin/sh", append([]string{"-c", sh, bin}, args...)...)
+		}
+		return exec.Command(bin, args...)
+	}
+	// earlier invocations over the same durable state
+	for _, ps := range w.Pre {
+		pargv := make([]string, len(ps.Argv))
+		for i, a := range ps.Argv {
+			pargv[i] = subst(a, root)
+		}
+		pc := mkCmd(pargv)
+		pc.Dir = cwd
+		penv := env
+		if !w.Real {
+			// pre-steps run under the same schedule but leave no record
+			pcfg := w.Sched
+			pcfg.Sandbox = root
+			pcfgPath := filepath.Join(base, "pre-world.json")
+			_ = os.WriteFile(pcfgPath, mustJSON(pcfg), 0o644)
+			penv = append(append([]string{}, env[:len(env)-1]...), "VERIF_WORLD="+pcfgPath)
+		}
+		pc.Env = penv
+		pdone := make(chan error, 1)
+		if err := pc.Start(); err != nil {
+			return nil, infraf("pre-step: %v", err)
+		}
+		go func() { pdone <- pc.Wait() }()
+		select {
+		case <-pdone:
+		case <-time.After(worldTimeout):
+			_ = pc.Process.Kill()
+			<-pdone
+		}
+		if err := materialise(ps.After); err != nil {
+			return nil, err
+		}
+	}
+	if len(w.Pre) > 0 {
+		if before, err = snapshot(root, true); err != nil {
+			return nil, infraf("snapshot: %v", err)
+		}
+	}
+	cmd := mkCmd(argv)
 	cmd.Dir = cwd
 	cmd.Env = env
 	var so, se bytes.Buffer
